@@ -2,7 +2,7 @@
 from . import resp_common as R
 
 SMALL = "{1,2,3,4,6,7,8,10,15,16}"      # self-test universe (no CR/LF-bearing command names)
-QUICK = "{1,2,3,4,5,7,8,11,12,13,15,16}"
+QUICK = "{1,2,3,4,7,8,11,12,15,16}"
 LIVE = "{1,2,3,4,5,7,11,12,13,15,16}"
 
 
@@ -10,17 +10,17 @@ def run(ctx):
     q = ctx.quick
     # self-test: the pinned tree's decoder (header consumed before "incomplete") must violate the design invariants
     ctx.tlc_gen("MC_Resp", R.mc(2, 2, univ=SMALL, legacy='{"decode"}', emit=""), "legacy-decode-selftest", expect_violation=True)
-    # every stream of <= 2 frames of the universe (12 of its 16 frames in the quick tier) x EVERY split into <= 2 reads, every
+    # every stream of <= 2 frames of the universe (10 of its 16 frames in the quick tier) x EVERY split into <= 2 reads, every
     # single frame x every split into <= 3 (thorough: 4) reads; the round-trip / prefix lemmas are checked by the same run
-    scripts = ctx.tlc_gen("MC_Resp", R.mc(2, 2, 3 if q else 4, univ=QUICK if q else R.ALL, lemmas=True), "cover", timeout=2400)
+    scripts = ctx.tlc_gen("MC_Resp", R.mc(2, 2, 3 if q else 4, univ=QUICK if q else R.ALL, lemmas=True), "cover", timeout=2400, coverage=True)
     if not q:
-        # every pair (12-frame universe) x every split into <= 3 reads, every triple of a smaller universe x <= 2 reads
+        # every pair (10-frame universe) x every split into <= 3 reads, every triple of a smaller universe x <= 2 reads
         scripts += ctx.tlc_gen("MC_Resp", R.mc(2, 3, univ=QUICK), "pairs-3chunks", timeout=2400)
         scripts += ctx.tlc_gen("MC_Resp", R.mc(3, 2, univ="{1,3,4,7,12,15}"), "triples-2chunks", timeout=2400)
     # random larger streams: <= 6 frames, <= 6 reads
-    scripts += ctx.tlc_gen("MC_Resp", R.mc(6, 6, emit="", inv="SimEmit " + R.DESIGN_INV), "walks", simulate=(100 if q else 3000, 40))
+    scripts += ctx.tlc_gen("MC_Resp", R.mc(6, 6, emit="", inv="SimEmit " + R.DESIGN_INV), "walks", simulate=(60 if q else 3000, 40))
     # the same behaviours through a socket of a live RespServer
-    live = ctx.tlc_gen("MC_Resp", R.mc(2, 2, 2 if q else 3, univ="{3,4,12,16}" if q else LIVE, live=True), "live", timeout=2400)
+    live = ctx.tlc_gen("MC_Resp", R.mc(2, 2, 2 if q else 3, univ="{3,4,12,16}" if q else LIVE, live=True), "live", timeout=2400, coverage=True)
     ctx.assume(R.ASSUME_GRAMMAR, R.ASSUME_LIMITS,
                "in-process runs drive RespValue::decode / handle_command / encode exactly as handle_connection does (one Deliver per "
                "socket read); the live runs cannot force the kernel to keep two writes in two reads (1.5 ms pause, TCP_NODELAY)",
